@@ -36,6 +36,7 @@ FACTORS = [
     ("C(A)", ["A"]), ("A", ["A"]), ("poly(a, 2)", ["a"]), ("I(a * b)", ["a", "b"]), ("bs(e, df=3)", ["e"]), ("{a + 1}", ["a"]),
     ("I(`c d` + a)", ["c d", "a"]), ("np.exp(e / 10)", ["e"]), ("f1(a)", ["a"]), ("f2(b, e)", ["b", "e"]), ("log(f1(a) + b)", ["a", "b"]),
     ("C(A, contr.sum)", ["A"]), ("center(`c d`)", ["c d"]), ("{`1z` * 2}", ["1z"]), ("`1z`", ["1z"]), ("np.sqrt(b):a", ["a", "b"]),
+    ("f3(a)(e)", ["a", "e"]), ("{np.stack([b, e], axis=1)[:, 0]}", ["b", "e"]), ("I(f3(b)(a) - e)", ["a", "b", "e"]),
 ]
 METHOD_FACTORS = [("{a.clip(0)}", ["a"]), ("{a.sum() * b}", ["a", "b"]), ("I(b.values)", ["b"]), ("{(a + b).abs()}", ["a", "b"])]
 
@@ -56,7 +57,7 @@ class _G:
     a = 2.0
 
 
-CONTEXT = {"f1": lambda x: x * 2, "f2": lambda x, y: x + y, "g": _G()}
+CONTEXT = {"f1": lambda x: x * 2, "f2": lambda x, y: x + y, "f3": lambda x: (lambda y: x + 2 * y), "g": _G()}
 
 
 def check_required(case) -> Outcome:
